@@ -266,6 +266,55 @@ def extra_obligations(mods, tier, seed):
         out.append({"name": f"C14/vectors/{k}", "status": "discharged" if not f else "sat", "backend": "enum",
                     "where": f"over all {n} presence/multiplicity vectors: {k}", "time": dt / 5,
                     "replay": {"failing": len(f), "examples": f[:3]}, "replay_confirmed": bool(f)})
+    # the project that the real target() writes (transpile only, upload=False): the libraries in its platformio.ini are the ones its
+    # src/main.cpp includes - for a sample of the vectors
+    import sys as _sys
+    import types as _types
+    t2 = time.time()
+    bad_t, n_t = [], 0
+    scratch2 = Path(tempfile.mkdtemp(prefix="c14-target-"))
+    saved_main, saved_tmpdir = _sys.modules["__main__"], tempfile.tempdir
+    try:
+        tempfile.tempdir = str(scratch2)
+        for ns, nl, npar, ni2c, other, order in [v for k, v in enumerate(space) if k % 11 == 0][:24]:
+            src = vector_src(ns, nl, npar, ni2c, other, lcd_order=order)
+            script = scratch2 / f"s{n_t}.py"
+            script.write_text(src, encoding="utf-8")
+            fake = _types.ModuleType("__main__")
+            fake.__file__ = str(script)
+            _sys.modules["__main__"] = fake
+            before = set(os.listdir(scratch2))
+            n_t += 1
+            try:
+                import contextlib as _ctx
+                import io as _io
+                with _ctx.redirect_stdout(_io.StringIO()):
+                    R.target("COM3", upload=False)
+            except Exception as ex:
+                bad_t.append({"vector": [ns, nl, npar, ni2c, other, order], "problem": f"target() raised {type(ex).__name__}: {ex}"})
+                continue
+            finally:
+                _sys.modules["__main__"] = saved_main
+            made = [d for d in set(os.listdir(scratch2)) - before if (scratch2 / d).is_dir()]
+            if len(made) != 1:
+                bad_t.append({"vector": [ns, nl, npar, ni2c, other, order], "problem": f"{len(made)} project directories created"})
+                continue
+            proj = scratch2 / made[0]
+            cpp_t = (proj / "src" / "main.cpp").read_text(encoding="utf-8")
+            inc = set(re.findall(r"^#include <(Servo|LiquidCrystal|LiquidCrystal_I2C)\.h>", cpp_t, re.M))
+            cp = configparser.RawConfigParser()
+            cp.read(proj / "platformio.ini", encoding="utf-8")
+            sec = cp.sections()[0]
+            ini_libs = {x.strip() for x in cp.get(sec, "lib_deps", fallback="").splitlines() if x.strip()}
+            if ini_libs != inc:
+                bad_t.append({"vector": {"servo_setup": ns, "servo_loop_top": nl, "lcd_parallel": npar, "lcd_i2c": ni2c, "order": order}, "included_by_main_cpp": sorted(inc), "lib_deps_in_platformio_ini": sorted(ini_libs)})
+    finally:
+        _sys.modules["__main__"] = saved_main
+        tempfile.tempdir = saved_tmpdir
+        shutil.rmtree(scratch2, ignore_errors=True)
+    out.append({"name": "C14/target/written-project-requests-what-it-includes", "status": "discharged" if not bad_t else "sat", "backend": "enum", "bounded": True,
+                "where": f"{n_t} vectors through the real target(port, upload=False): lib_deps of the written platformio.ini = headers included by the written src/main.cpp",
+                "time": round(time.time() - t2, 3), "replay": {"failing": bad_t[:3]}, "replay_confirmed": bool(bad_t)})
     # interface selection in the parser: i2c_addr present <=> interface i2c (any constant address, incl. 0)
     t1 = time.time()
     bad = []
